@@ -867,9 +867,9 @@ func (g *Gen) stmt() {
 // container built-ins, interface-typed values).
 func (g *Gen) extraStmt() {
 	r := g.R
-	sel := r.IntN(29)
-	if sel >= 15 {
-		sel -= 15 // cases 0..13 twice as likely as case 14
+	sel := r.IntN(31)
+	if sel >= 17 {
+		sel -= 17 // cases 0..13 twice as likely as cases 14..16
 	}
 	if sel == 14 && r.IntN(5) != 0 {
 		sel = 13 // keep the (known-defective) field-element swap rare: it aborts the program on I
@@ -1029,6 +1029,27 @@ func (g *Gen) extraStmt() {
 		g.line("    log(%s.inc())", q)
 		g.line("    destroy %s", q)
 		g.line("}")
+	case 15, 16:
+		// constants converted to optional / container element types inside a function expression
+		g.feat("closure_optional_constants")
+		f := g.fresh("cf")
+		k := r.IntN(50)
+		g.line("let %s = fun (): [AnyStruct] {", f)
+		g.line("    let s: Int? = %d", k)
+		g.line("    let d: {String: UInt8?} = {\"k\": %d, \"n\": nil}", r.IntN(200))
+		g.line("    let a: [String?] = [\"a\", nil]")
+		g.line("    let u: UFix64? = %d.5", r.IntN(9))
+		g.line("    let m = s.map(fun (x: Int): Int { return x + 1 })")
+		g.line("    return [s, m, d[\"k\"], d[\"n\"], a[0], a[1], a.length, u, d.length]")
+		g.line("}")
+		g.line("log(%s())", f)
+		if g.Tx && g.inLoop == 0 {
+			p := fmt.Sprintf("/storage/c%d", r.IntN(3))
+			g.line("let b%s = fun (): {String: UInt8?} { return {\"k\": %d, \"z\": nil} }", f, r.IntN(200))
+			g.line("if acct.storage.type(at: %s) == nil { acct.storage.save(b%s(), to: %s) }", p, f, p)
+			g.line("let l%s = fun (): [String?] { return [\"a\", nil, \"%d\"] }", f, k)
+			g.line("if acct.storage.type(at: /storage/l0) == nil { acct.storage.save(l%s(), to: /storage/l0) }", f)
+		}
 	case 14:
 		// swap with an element of a resource-typed field container
 		g.feat("res_swap_field_element")
@@ -1368,6 +1389,7 @@ type Program struct {
 	Contract string            // contract C0 source (transaction mode)
 	Features map[string]int
 	Tx       bool
+	Signers  int // number of signer accounts (0 = one signer, account 0x1)
 }
 
 var qualRe = regexp.MustCompile(`\b(S[0-9]|R[0-9]|SI0|RI0|Color|E[0-9]|Ev[0-9]|A0|RA0|rec|eat|make1|make|viaRef|viaAuth|viaIface|viaRIface|clampIdx|adder|fire)\b`)
